@@ -28,6 +28,8 @@ func solverSpecs(timeout time.Duration) []SolverSpec {
 		// the same solver with another random seed: quantifier instantiation on the larger heap invariants is
 		// sensitive to it (a query that times out with the default seed came back unsat in a second with any other)
 		{"z3-5.1.0-seed1", []string{"z3-new", "-smt2", fmt.Sprintf("-t:%d", ms), "smt.random_seed=1", "sat.random_seed=1"}, ""},
+		{"z3-5.1.0-seed2", []string{"z3-new", "-smt2", fmt.Sprintf("-t:%d", ms), "smt.random_seed=2", "sat.random_seed=2"}, ""},
+		{"z3-5.1.0-seed3", []string{"z3-new", "-smt2", fmt.Sprintf("-t:%d", ms), "smt.random_seed=3", "sat.random_seed=3"}, ""},
 	}
 }
 
